@@ -414,13 +414,26 @@ def expansion(helper, call, caller_names, ctx, static_self=None):
                 if new != p:
                     renames[p] = new
                 pre.append(ast.Assign(targets=[ast.Name(id=new, ctx=ast.Store())], value=_copy(v), lineno=0))
-    own_target = None
-    if ctx[0] == "assign" and len(ctx[1]) == 1 and isinstance(ctx[1][0], ast.Name):
-        t = ctx[1][0].id
-        if not any(isinstance(n, ast.Name) and n.id == t for v in bound.values() for n in ast.walk(v)) and t not in bound:
-            own_target = t
+    # the names the call's result is assigned to are (re)defined by this very statement: a helper local may keep such a
+    # name, and the local(s) the helper returns are given the target name(s)
+    own_targets = []
+    if ctx[0] == "assign" and len(ctx[1]) == 1:
+        tg = ctx[1][0]
+        tnames = [tg] if isinstance(tg, ast.Name) else list(tg.elts) if isinstance(tg, (ast.Tuple, ast.List)) else []
+        if tnames and all(isinstance(t, ast.Name) for t in tnames):
+            used_in_args = {n.id for v in bound.values() for n in ast.walk(v) if isinstance(n, ast.Name)}
+            if not any(t.id in used_in_args or t.id in bound for t in tnames):
+                own_targets = [t.id for t in tnames]
+    rets = [n for n in _walk_own(body) if isinstance(n, ast.Return)]
+    if own_targets and len(rets) == 1 and rets[0].value is not None:
+        rv = rets[0].value
+        rnames = [rv] if isinstance(rv, ast.Name) else list(rv.elts) if isinstance(rv, ast.Tuple) else []
+        if len(rnames) == len(own_targets) and all(isinstance(r, ast.Name) and r.id in stored and r.id not in bound for r in rnames) and len({r.id for r in rnames}) == len(rnames):
+            for r, t in zip(rnames, own_targets):
+                if r.id != t and t not in stored and t not in comp:
+                    renames[r.id] = t
     for loc in stored - set(bound):
-        if loc in caller_names and loc != own_target:
+        if loc in caller_names and loc not in own_targets and loc not in renames:
             renames[loc] = f"{loc}__{helper.name.strip('_')}"
     sub = _Subst(mapping, renames)
     body = [sub.visit(s) for s in body]
@@ -432,7 +445,7 @@ def expansion(helper, call, caller_names, ctx, static_self=None):
     if ctx[0] == "assign":
         targets = ctx[1]
         def mk(e):
-            if len(targets) == 1 and isinstance(targets[0], ast.Name) and isinstance(e, ast.Name) and e.id == targets[0].id:
+            if len(targets) == 1 and norm(targets[0]) == norm(e) and all(isinstance(n, (ast.Name, ast.Tuple, ast.List, ast.Load, ast.Store)) for n in ast.walk(e)):
                 return []
             return [ast.Assign(targets=[_copy(t) for t in targets], value=e, lineno=0)]
     else:
@@ -501,7 +514,8 @@ class Inliner:
         if isinstance(func_expr, ast.Attribute) and isinstance(func_expr.value, ast.Name):
             if func_expr.value.id == "self" and enclosing_cls is not None:
                 h = helpers.get((mname, f"{enclosing_cls}.{func_expr.attr}"))
-                if h is not None:
+                # dynamic dispatch: only when no other class defines a method of that name (no override can be selected)
+                if h is not None and self.method_defs(func_expr.attr) == 1:
                     return h, func_expr.value
             imp = _import_of(tree, func_expr.value.id)
             if imp is not None:
@@ -510,6 +524,14 @@ class Inliner:
                 if h is not None and h.cls is None:
                     return h, None
         return None, None
+
+    def method_defs(self, name):
+        n = 0
+        for tree in self.modules.values():
+            for q, (node, parent, cls) in function_table(tree).items():
+                if cls is not None and node.name == name:
+                    n += 1
+        return n
 
     def run(self):
         for _ in range(MAX_ROUNDS):
@@ -819,3 +841,35 @@ def prenormalise(trees):
     inl.run()
     changed |= inl.changed
     return changed, notes
+
+
+class SelfInliner(Inliner):
+    """specialisation of a method for a concrete class: calls to other methods on ``self`` are replaced by the body the
+    class's method resolution order selects (template-method refactorings: a base class _decode calling self._convert)"""
+
+    def __init__(self, find_method, mod, cls, skip=("__init__",)):
+        super().__init__({}, {}, [])
+        self.find_method = find_method
+        self.mod, self.cls_node, self.skip = mod, cls, set(skip)
+
+    def resolve(self, mname, tree, func_expr, enclosing_cls, helpers):
+        if isinstance(func_expr, ast.Attribute) and isinstance(func_expr.value, ast.Name) and func_expr.value.id == "self" and func_expr.attr not in self.skip:
+            got = self.find_method(self.mod, self.cls_node, func_expr.attr)
+            if got is not None:
+                node, fmod, fcls = got
+                h = Helper(mname, f"{fcls.name}.{node.name}", node, fcls.name)
+                try:
+                    h.check()
+                except NotInlinable:
+                    return None, None
+                return h, func_expr.value
+        return None, None
+
+    def specialise(self, fn, rounds=3):
+        fn = _copy(fn)
+        _strip_parents(fn)
+        for _ in range(rounds):
+            if not self.inline_in_function(self.mod.name, None, fn, self.cls_node.name, {}):
+                break
+        ast.fix_missing_locations(fn)
+        return ast.parse(ast.unparse(fn)).body[0]
